@@ -158,6 +158,14 @@ func runC18(s *core.Sim, tier string) RunInfo {
 		}
 		s.Probe("earlier-request-on-same-exchange")
 	}
+	if s.Tape.Coin("idle-period", 1, 6) {
+		// the Exchange sits idle for a while (the peer tracker's periodic clean-up runs, a peer that
+		// was disconnected for more than an hour is forgotten) before the judged request
+		d := time.Duration(6+s.Tape.Draw("idle-min", 120)) * time.Minute
+		s.Sleep(d)
+		desc = append(desc, fmt.Sprintf("idle for %v", d))
+		s.Probe("idle-period-before-request")
+	}
 	// the peer that holds everything may itself hiccup once in the judged request, as long as
 	// another honest peer holds the whole requested range: together they still hold it
 	capableDrops := false
